@@ -189,6 +189,26 @@ func classifyCrash(log string) (libFrame, msg string, excerpt string) {
 			}
 		}
 	}
+	if strings.HasPrefix(msg, "fatal error: out of memory") && libFrame != "" {
+		// under the worker's address-space limit the allocation that fails need not be the one to blame: only a
+		// single allocation of 64 MiB or more, made from a library frame, is the library's doing (a length field taken
+		// at its word); a small one failing means the worker as a whole ran out — not a verdict on the library
+		big := false
+		for i := idx; i < end && i < len(lines); i++ {
+			for _, fn := range []string{"runtime.mallocgc(", "runtime.makeslice(", "runtime.growslice("} {
+				if p := strings.Index(lines[i], fn+"0x"); p >= 0 {
+					var n uint64
+					fmt.Sscanf(lines[i][p+len(fn):], "0x%x", &n)
+					if fn == "runtime.mallocgc(" && n >= 1<<26 {
+						big = true
+					}
+				}
+			}
+		}
+		if !big {
+			libFrame = ""
+		}
+	}
 	msg = reHex.ReplaceAllString(msg, "0xN")
 	msg = reDigits.ReplaceAllString(msg, "N")
 	if len(msg) > 160 {
